@@ -470,6 +470,8 @@ func (p *parser) parseBracketMember(left ast.Expression) ast.Expression {
 }
 
 func (p *parser) parseNewExpression() ast.Expression {
+	defer decNestLev(incNestLev(p))
+
 	idx := p.expect(token.NEW)
 	callee := p.parseLeftHandSideExpression()
 	node := &ast.NewExpression{
@@ -506,13 +508,16 @@ func (p *parser) parseLeftHandSideExpression() ast.Expression {
 		p.comments.SetExpression(left)
 	}
 
+	lev := p.nestLev
 	for {
+		incNestLev(p) // The tree so far goes one level down: a.b.c..., f()()()...
 		switch p.token {
 		case token.PERIOD:
 			left = p.parseDotMember(left)
 		case token.LEFT_BRACKET:
 			left = p.parseBracketMember(left)
 		default:
+			p.nestLev = lev
 			return left
 		}
 	}
@@ -549,7 +554,9 @@ func (p *parser) parseLeftHandSideExpressionAllowCall() ast.Expression {
 		p.comments.SetExpression(left)
 	}
 
+	lev := p.nestLev
 	for {
+		incNestLev(p) // The tree so far goes one level down: a.b.c..., f()()()...
 		switch p.token {
 		case token.PERIOD:
 			left = p.parseDotMember(left)
@@ -558,6 +565,7 @@ func (p *parser) parseLeftHandSideExpressionAllowCall() ast.Expression {
 		case token.LEFT_PARENTHESIS:
 			left = p.parseCallExpression(left)
 		default:
+			p.nestLev = lev
 			return left
 		}
 	}
@@ -607,6 +615,8 @@ func (p *parser) parseUnaryExpression() ast.Expression {
 	case token.PLUS, token.MINUS, token.NOT, token.BITWISE_NOT:
 		fallthrough
 	case token.DELETE, token.VOID, token.TYPEOF:
+		defer decNestLev(incNestLev(p))
+
 		tkn := p.token
 		idx := p.idx
 		if p.mode&StoreComments != 0 {
@@ -620,6 +630,8 @@ func (p *parser) parseUnaryExpression() ast.Expression {
 			Operand:  p.parseUnaryExpression(),
 		}
 	case token.INCREMENT, token.DECREMENT:
+		defer decNestLev(incNestLev(p))
+
 		tkn := p.token
 		idx := p.idx
 		if p.mode&StoreComments != 0 {
@@ -647,9 +659,11 @@ func (p *parser) parseUnaryExpression() ast.Expression {
 func (p *parser) parseMultiplicativeExpression() ast.Expression {
 	next := p.parseUnaryExpression
 	left := next()
+	lev := p.nestLev
 
 	for p.token == token.MULTIPLY || p.token == token.SLASH ||
 		p.token == token.REMAINDER {
+		incNestLev(p) // The tree so far goes one level down.
 		tkn := p.token
 		if p.mode&StoreComments != 0 {
 			p.comments.Unset()
@@ -663,14 +677,17 @@ func (p *parser) parseMultiplicativeExpression() ast.Expression {
 		}
 	}
 
+	p.nestLev = lev
 	return left
 }
 
 func (p *parser) parseAdditiveExpression() ast.Expression {
 	next := p.parseMultiplicativeExpression
 	left := next()
+	lev := p.nestLev
 
 	for p.token == token.PLUS || p.token == token.MINUS {
+		incNestLev(p) // The tree so far goes one level down.
 		tkn := p.token
 		if p.mode&StoreComments != 0 {
 			p.comments.Unset()
@@ -684,15 +701,18 @@ func (p *parser) parseAdditiveExpression() ast.Expression {
 		}
 	}
 
+	p.nestLev = lev
 	return left
 }
 
 func (p *parser) parseShiftExpression() ast.Expression {
 	next := p.parseAdditiveExpression
 	left := next()
+	lev := p.nestLev
 
 	for p.token == token.SHIFT_LEFT || p.token == token.SHIFT_RIGHT ||
 		p.token == token.UNSIGNED_SHIFT_RIGHT {
+		incNestLev(p) // The tree so far goes one level down.
 		tkn := p.token
 		if p.mode&StoreComments != 0 {
 			p.comments.Unset()
@@ -706,6 +726,7 @@ func (p *parser) parseShiftExpression() ast.Expression {
 		}
 	}
 
+	p.nestLev = lev
 	return left
 }
 
@@ -714,10 +735,12 @@ func (p *parser) parseRelationalExpression() ast.Expression {
 	left := next()
 
 	allowIn := p.scope.allowIn
+	lev := p.nestLev
 
 	for {
 		switch p.token {
 		case token.LESS, token.LESS_OR_EQUAL, token.GREATER, token.GREATER_OR_EQUAL:
+			incNestLev(p) // The tree so far goes one level down.
 			tkn := p.token
 			if p.mode&StoreComments != 0 {
 				p.comments.Unset()
@@ -731,6 +754,7 @@ func (p *parser) parseRelationalExpression() ast.Expression {
 				Comparison: true,
 			}
 		case token.INSTANCEOF:
+			incNestLev(p) // The tree so far goes one level down.
 			tkn := p.token
 			if p.mode&StoreComments != 0 {
 				p.comments.Unset()
@@ -744,8 +768,10 @@ func (p *parser) parseRelationalExpression() ast.Expression {
 			}
 		case token.IN:
 			if !allowIn {
+				p.nestLev = lev
 				return left
 			}
+			incNestLev(p) // The tree so far goes one level down.
 			tkn := p.token
 			if p.mode&StoreComments != 0 {
 				p.comments.Unset()
@@ -758,6 +784,7 @@ func (p *parser) parseRelationalExpression() ast.Expression {
 				Right:    next(),
 			}
 		default:
+			p.nestLev = lev
 			return left
 		}
 	}
@@ -766,9 +793,11 @@ func (p *parser) parseRelationalExpression() ast.Expression {
 func (p *parser) parseEqualityExpression() ast.Expression {
 	next := p.parseRelationalExpression
 	left := next()
+	lev := p.nestLev
 
 	for p.token == token.EQUAL || p.token == token.NOT_EQUAL ||
 		p.token == token.STRICT_EQUAL || p.token == token.STRICT_NOT_EQUAL {
+		incNestLev(p) // The tree so far goes one level down.
 		tkn := p.token
 		if p.mode&StoreComments != 0 {
 			p.comments.Unset()
@@ -783,14 +812,17 @@ func (p *parser) parseEqualityExpression() ast.Expression {
 		}
 	}
 
+	p.nestLev = lev
 	return left
 }
 
 func (p *parser) parseBitwiseAndExpression() ast.Expression {
 	next := p.parseEqualityExpression
 	left := next()
+	lev := p.nestLev
 
 	for p.token == token.AND {
+		incNestLev(p) // The tree so far goes one level down.
 		if p.mode&StoreComments != 0 {
 			p.comments.Unset()
 		}
@@ -804,14 +836,17 @@ func (p *parser) parseBitwiseAndExpression() ast.Expression {
 		}
 	}
 
+	p.nestLev = lev
 	return left
 }
 
 func (p *parser) parseBitwiseExclusiveOrExpression() ast.Expression {
 	next := p.parseBitwiseAndExpression
 	left := next()
+	lev := p.nestLev
 
 	for p.token == token.EXCLUSIVE_OR {
+		incNestLev(p) // The tree so far goes one level down.
 		if p.mode&StoreComments != 0 {
 			p.comments.Unset()
 		}
@@ -825,14 +860,17 @@ func (p *parser) parseBitwiseExclusiveOrExpression() ast.Expression {
 		}
 	}
 
+	p.nestLev = lev
 	return left
 }
 
 func (p *parser) parseBitwiseOrExpression() ast.Expression {
 	next := p.parseBitwiseExclusiveOrExpression
 	left := next()
+	lev := p.nestLev
 
 	for p.token == token.OR {
+		incNestLev(p) // The tree so far goes one level down.
 		if p.mode&StoreComments != 0 {
 			p.comments.Unset()
 		}
@@ -846,14 +884,17 @@ func (p *parser) parseBitwiseOrExpression() ast.Expression {
 		}
 	}
 
+	p.nestLev = lev
 	return left
 }
 
 func (p *parser) parseLogicalAndExpression() ast.Expression {
 	next := p.parseBitwiseOrExpression
 	left := next()
+	lev := p.nestLev
 
 	for p.token == token.LOGICAL_AND {
+		incNestLev(p) // The tree so far goes one level down.
 		if p.mode&StoreComments != 0 {
 			p.comments.Unset()
 		}
@@ -867,14 +908,17 @@ func (p *parser) parseLogicalAndExpression() ast.Expression {
 		}
 	}
 
+	p.nestLev = lev
 	return left
 }
 
 func (p *parser) parseLogicalOrExpression() ast.Expression {
 	next := p.parseLogicalAndExpression
 	left := next()
+	lev := p.nestLev
 
 	for p.token == token.LOGICAL_OR {
+		incNestLev(p) // The tree so far goes one level down.
 		if p.mode&StoreComments != 0 {
 			p.comments.Unset()
 		}
@@ -888,6 +932,7 @@ func (p *parser) parseLogicalOrExpression() ast.Expression {
 		}
 	}
 
+	p.nestLev = lev
 	return left
 }
 
@@ -921,6 +966,8 @@ func (p *parser) parseConditionalExpression() ast.Expression {
 }
 
 func (p *parser) parseAssignmentExpression() ast.Expression {
+	defer decNestLev(incNestLev(p))
+
 	left := p.parseConditionalExpression()
 	var operator token.Token
 	switch p.token {
